@@ -123,8 +123,8 @@ def to_hashable(data: Any) -> Any:
     if isinstance(data, list):
         return tuple(map(to_hashable, data))
     elif isinstance(data, dict):
-        sorted_keys = sorted(data)
-        return tuple(sorted_keys + [to_hashable(data[k]) for k in sorted_keys])
+        # an object is not the array of its keys and values, and its keys need no order
+        return frozenset((key, to_hashable(value)) for key, value in data.items())
     else:
         return data
 
